@@ -8,10 +8,14 @@ import (
 	"regexp"
 	"strings"
 
+	eth2api "github.com/attestantio/go-eth2-client/api"
 	api "github.com/attestantio/go-eth2-client/api/v1"
 	"github.com/attestantio/go-eth2-client/spec/phase0"
 	"github.com/attestantio/vouch/internal/vnd"
 	"github.com/attestantio/vouch/internal/vstub"
+	nullmetrics "github.com/attestantio/vouch/services/metrics/null"
+	"github.com/attestantio/vouch/services/validatorsmanager"
+	"github.com/rs/zerolog"
 	e2wtypes "github.com/wealdtech/go-eth2-wallet-types/v2"
 )
 
@@ -41,6 +45,32 @@ func (v *c13Validators) ValidatorStateAtEpoch(_ context.Context, _ phase0.Valida
 	return api.ValidatorStateUnknown, nil
 }
 
+// c13Chain answers the constructor's questions about the chain.
+type c13Chain struct{}
+
+func (c13Chain) Spec(_ context.Context, _ *eth2api.SpecOpts) (*eth2api.Response[map[string]any], error) {
+	return &eth2api.Response[map[string]any]{Data: map[string]any{"SLOTS_PER_EPOCH": uint64(32)}, Metadata: map[string]any{}}, nil
+}
+func (c13Chain) FarFutureEpoch(_ context.Context) (phase0.Epoch, error) { return c13FarFuture, nil }
+func (c13Chain) Domain(_ context.Context, _ phase0.DomainType, _ phase0.Epoch) (phase0.Domain, error) {
+	return phase0.Domain{}, nil
+}
+func (c13Chain) GenesisDomain(_ context.Context, _ phase0.DomainType) (phase0.Domain, error) {
+	return phase0.Domain{}, nil
+}
+
+// c13New builds the account manager through its constructor, with the given
+// account specifiers and passphrases. The accounts themselves (state that has
+// no option) are put in place by the caller.
+func c13New(vm validatorsmanager.Service, ct *vstub.ChainTime, paths []string, pass [][]byte, label string) *Service {
+	s, err := New(context.Background(), WithLogLevel(zerolog.Disabled), WithMonitor(&nullmetrics.Service{}),
+		WithProcessConcurrency(2), WithLocations([]string{"/nonexistent/wallets"}), WithAccountPaths(paths), WithPassphrases(pass),
+		WithValidatorsManager(vm), WithSpecProvider(c13Chain{}), WithFarFutureEpochProvider(c13Chain{}),
+		WithDomainProvider(c13Chain{}), WithCurrentEpochProvider(ct))
+	vnd.Assert(err == nil && s != nil, label)
+	return s
+}
+
 // ndValidator: an arbitrary validator record under the consensus spec's
 // well-formedness: activation <= exit <= withdrawable; slashed => exit set.
 func ndValidator(key phase0.BLSPubKey) *phase0.Validator {
@@ -65,7 +95,7 @@ func VerifC13_State() {
 	n := vnd.IntRange("accounts", 1, 2)
 	vm := &c13Validators{recs: map[phase0.BLSPubKey]*phase0.Validator{}, idx: map[phase0.BLSPubKey]phase0.ValidatorIndex{}}
 	ct := vstub.NewChainTime(0)
-	s := &Service{accounts: map[phase0.BLSPubKey]e2wtypes.Account{}, validatorsManager: vm, farFutureEpoch: c13FarFuture, currentEpochProvider: ct}
+	s := c13New(vm, ct, []string{}, [][]byte{[]byte("secret")}, "C13.new.accepted")
 	epoch := phase0.Epoch(vnd.U64("epoch"))
 	vnd.Assume(epoch < 1<<40) // epochs come from the wall clock
 	keys := make([]phase0.BLSPubKey, n)
